@@ -36,6 +36,7 @@ impl SeamKind {
 pub enum SeamAction {
     Panic,
     Reenter(usize), // index into the op's `nested` list
+    Stall(u32),     // real sleep, milliseconds
 }
 
 #[derive(Clone, Debug)]
@@ -367,6 +368,10 @@ pub fn seam(kind: SeamKind) {
             });
             panic!("{INJECTED}");
         }
+        Some((SeamAction::Stall(ms), _)) => {
+            fired("stall");
+            std::thread::sleep(std::time::Duration::from_millis(ms as u64));
+        }
         Some((SeamAction::Reenter(i), depth)) => {
             if depth == 0 {
                 let op = with(|s| {
@@ -528,9 +533,27 @@ impl Scheduler for SimScheduler {
 
 pub struct SeamSubscriber;
 
+/// Whether the subscriber is interested in the library's spans and events at all. Results
+/// must not depend on it (whether anyone listens to `tracing` is ambient state, not input).
+pub static TRACE_ON: std::sync::atomic::AtomicBool = std::sync::atomic::AtomicBool::new(true);
+
+pub fn set_trace(on: bool) {
+    TRACE_ON.store(on, std::sync::atomic::Ordering::SeqCst);
+    tracing_core::callsite::rebuild_interest_cache();
+}
+
 impl tracing_core::Subscriber for SeamSubscriber {
     fn enabled(&self, meta: &tracing_core::Metadata<'_>) -> bool {
-        meta.target().starts_with("cooklang")
+        TRACE_ON.load(std::sync::atomic::Ordering::Relaxed) && meta.target().starts_with("cooklang")
+    }
+
+    fn register_callsite(&self, meta: &'static tracing_core::Metadata<'static>) -> tracing_core::subscriber::Interest {
+        // "sometimes": ask `enabled` every time, so that switching takes effect immediately
+        if meta.target().starts_with("cooklang") {
+            tracing_core::subscriber::Interest::sometimes()
+        } else {
+            tracing_core::subscriber::Interest::never()
+        }
     }
 
     fn max_level_hint(&self) -> Option<tracing_core::LevelFilter> {
